@@ -221,6 +221,61 @@ void roundCase(Ctx &c, Rng &g) {
   for (const R &far : {R(-1000), R(1000), R(distinct.front() - R(1) / 1024),
                        R(distinct.back() + R(1) / 1024)})
     rd.judgeScalar("evaluate-outside", a(mk<T>(far)), R(0), R(0));
+  // 4c. a general spline of the highest order of the family (6) with
+  // full-mantissa coefficients through every kernel
+  {
+    const Win w6 = genWin(g, n);
+    CoefM c6 = genCoefM(g, true, w6.nint(), 6);
+    for (auto &row : c6)
+      for (auto &x : row) {
+        const T v = (T)g.range(-1000000, 1000000) / (T)g.range(3, 99999);
+        x = toR<T>(v);
+      }
+    const Spline<T, 6> b6 = mkSpline<T, 6>(grid, w6.start, w6.end, c6);
+    const Den d6 = denote(b6);
+    const AbsM a6 = absOf(b6);
+    for (size_t k = w6.start; k + 1 < w6.end; k++)
+      for (int t = 0; t <= 4; t++) {  // incl. both ends of the interval
+        const R xr = distinct[k] + (distinct[k + 1] - distinct[k]) * t / 4;
+        const R xm = (distinct[k] + distinct[k + 1]) / 2;
+        R S = hsum(a6[k], rabs(xr - xm));
+        const R exact = model::peval(d6.pc[k], xr);
+        if ((t == 0 && k > w6.start) || (t == 4 && k + 2 < w6.end)) {
+          rd.dg.val(b6(mk<T>(xr)));
+          continue;  // shared grid point: either neighbour (C02)
+        }
+        if (S == 0) S = R(1) / R(vq::Z(1) << 60);
+        rd.judgeScalar("evaluate-order6", b6(mk<T>(xr)), exact, S);
+      }
+    {
+      const AbsM x1 = absMulX(a6, 1, distinct), x3 = absMulX(a6, 3, distinct);
+      rd.judge("X<1>-order6", X<1>{} * b6, model::dmulx(d6, 1), &x1);
+      rd.judge("X<3>-order6", X<3>{} * b6, model::dmulx(d6, 3), &x3);
+      const AbsM d1 = absDeriv(a6, 1), d5 = absDeriv(a6, 5);
+      rd.judge("Dx<1>-order6", Dx<1>{} * b6, model::dderiv(d6, 1), &d1);
+      rd.judge("Dx<5>-order6", Dx<5>{} * b6, model::dderiv(d6, 5), &d5);
+      const AbsM sm = absAdd(a6, aa);
+      rd.judge("sum-order6", b6 + a, model::dadd(d6, da), &sm);
+    }
+    R lf(0), lfS(0), l1(0), l1S(0), sp(0), spS(0), bx(0), bxS(0);
+    const Den x1d = model::dmulx(d6, 1), dd = model::dderiv(d6, 1);
+    const AbsM x1a = absMulX(a6, 1, distinct), dda = absDeriv(a6, 1);
+    for (size_t k = w6.start; k + 1 < w6.end; k++) {
+      const R h = (distinct[k + 1] - distinct[k]) / 2;
+      lf += model::pintegral(d6.pc[k], distinct[k], distinct[k + 1]);
+      lfS += absIntegral(a6[k], h);
+      l1 += model::pintegral(x1d.pc[k], distinct[k], distinct[k + 1]);
+      l1S += absIntegral(x1a[k], h);
+      sp += model::pintegral(model::pmul(d6.pc[k], d6.pc[k]), distinct[k], distinct[k + 1]);
+      spS += absIntegral(model::pmul(a6[k], a6[k]), h);
+      bx += model::pintegral(model::pmul(x1d.pc[k], dd.pc[k]), distinct[k], distinct[k + 1]);
+      bxS += absIntegral(model::pmul(x1a[k], dda[k]), h);
+    }
+    rd.judgeScalar("linear-form-order6", LinearForm{}(b6), lf, lfS);
+    rd.judgeScalar("linear-form-X1-order6", LinearForm{X<1>{}}(b6), l1, l1S);
+    rd.judgeScalar("scalar-product-order6", ScalarProduct{}(b6, b6), sp, spS);
+    rd.judgeScalar("bilinear-form-order6", BilinearForm{X<1>{}, Dx<1>{}}(b6, b6), bx, bxS);
+  }
   // 5. linear and bilinear forms
   {
     const size_t lo = std::max<size_t>(a.getSupport().getStartIndex(), wb.start),
